@@ -9,6 +9,7 @@ import (
 	"errors"
 	"fmt"
 	"net/http"
+	"strings"
 
 	envoy_core "github.com/envoyproxy/go-control-plane/envoy/config/core/v3"
 	envoy_auth "github.com/envoyproxy/go-control-plane/envoy/service/auth/v3"
@@ -153,7 +154,7 @@ func overrides() [nKinds]int {
 	return ov
 }
 
-var accepts = []string{"", "application/json", "text/html", "text/plain;q=0.9, application/xml", "image/png", "*/*"}
+var accepts = []string{"", "application/json", "text/html", "text/plain;q=0.9, application/xml", "image/png", "*/*", "text/plain"}
 
 func VerifC12Translate() {
 	depth := verifapi.Bound("depth", 1)
@@ -266,5 +267,22 @@ func VerifC12Translate() {
 		verifapi.Assert("C12/no-body-unless-verbose-grpc", len(denied.GetBody()) == 0)
 	} else {
 		verifapi.Cover("verbose")
+		// the body is labelled with the negotiated content type, identically by both translators
+		if class != kRedirect && len(rec.body) != 0 {
+			gct := ""
+			for _, hv := range denied.GetHeaders() {
+				if strings.EqualFold(hv.GetHeader().GetKey(), "Content-Type") {
+					gct = hv.GetHeader().GetValue()
+				}
+			}
+			// (for an absent Accept header or */* any supported type is a correct answer; the two translators
+			// prefer different ones, which the property does not forbid)
+			if accept != "" && accept != "*/*" && accept != "image/png" {
+				verifapi.Assert("C12/verbose-content-type-http-equals-grpc", rec.hdr.Get("Content-Type") == gct)
+			}
+			if accept == "text/plain" {
+				verifapi.Assert("C12/verbose-plain-text-body-is-labelled-text-plain", strings.HasPrefix(rec.hdr.Get("Content-Type"), "text/plain"))
+			}
+		}
 	}
 }
